@@ -173,10 +173,83 @@ def check_case(ctx, case, stats, samples):
         samples.append({"T": encs[0], "classes": w.n, "subclasscheck_row_impl": [L.impl_sub(w.classes[c], objs[0]) for c in range(w.n)], "denot_model": mden[0][1]})
 
 
+_defer_ids = [0]
+
+
+def check_deferred(ctx, stats):
+    """Deferred["pkg.Cls"]: a class of an external package that is not imported yet. Documented meaning: a class
+    matches when it belongs to that package (first component of its module path) and is a subclass of the named class.
+    Model: a class predicate (Chk) true exactly on those classes."""
+    import os, sys, tempfile, importlib, shutil
+    from ovld.types import Deferred
+    from ovld import Ovld
+    _defer_ids[0] += 1
+    pkg = f"vdeferpkg{os.getpid()}_{_defer_ids[0]}"
+    root = tempfile.mkdtemp(prefix="vdefer_", dir="/tmp")
+    try:
+        depth = ctx.rng.choice([0, 1, 2])
+        sub = ["core", "frame"][:depth]
+        d = os.path.join(root, pkg, *sub)
+        os.makedirs(d)
+        p = os.path.join(root, pkg)
+        modpath = pkg
+        for part in sub:
+            open(os.path.join(p, "__init__.py"), "a").close()
+            p = os.path.join(p, part)
+            modpath += "." + part
+        # the classes live in the innermost module; the package re-exports them (the usual layout)
+        with open(os.path.join(p, "__init__.py"), "a") as f:
+            f.write("class Frame:\n    pass\nclass WideFrame(Frame):\n    pass\nclass Other:\n    pass\n")
+        if sub:
+            with open(os.path.join(root, pkg, "__init__.py"), "a") as f:
+                f.write(f"from {modpath} import Frame, WideFrame, Other\n")
+        sys.path.insert(0, root)
+        T = Deferred[f"{pkg}.Frame"]           # created BEFORE the package is imported
+        mod = importlib.import_module(pkg)
+
+        class Local(mod.Frame):                # subclass defined outside the package
+            pass
+        cases = [(mod.Frame, True), (mod.WideFrame, True), (mod.Other, False), (Local, False), (int, False), (object, False)]
+        f = Ovld()
+
+        def m(x):
+            return "deferred"
+        m.__annotations__ = {"x": T}
+
+        def g(x):
+            return "object"
+        g.__annotations__ = {"x": object}
+        f.register(m)
+        f.register(g)
+        for cls, exp in cases:
+            got = L.impl_sub(cls, T)
+            stats["evaluations"] += 1
+            stats["deferred_checks"] += 1
+            if got != int(exp):
+                ctx.violation(f"subclasscheck({cls.__module__}.{cls.__name__}, Deferred[...Frame]) = {got}, documented meaning gives {exp} (classes live {depth} level(s) below the package root)",
+                              {"deferred": True, "module_depth": depth, "class": cls.__name__})
+                return
+            try:
+                inst = cls()
+            except TypeError:
+                continue
+            ran = f(inst)
+            if (ran == "deferred") != exp:
+                ctx.violation(f"a method declared on Deferred[...Frame] {'ran' if ran == 'deferred' else 'did not run'} for an instance of {cls.__name__}",
+                              {"deferred": True, "module_depth": depth, "class": cls.__name__})
+                return
+    finally:
+        if root in sys.path:
+            sys.path.remove(root)
+        for k in [k for k in sys.modules if k.startswith(pkg)]:
+            del sys.modules[k]
+        shutil.rmtree(root, ignore_errors=True)
+
+
 def run(ctx):
     stats = collections.Counter()
     stats = {"evaluations": 0, "worlds": 0, "worlds_hyp": 0, "denot_checks": 0, "generic_checks": 0, "triples": 0,
-             "triples_in_domain": 0, "dispatch_checks": 0, "trans_fail_outside_hypotheses": 0, "nontrivial": set()}
+             "triples_in_domain": 0, "dispatch_checks": 0, "trans_fail_outside_hypotheses": 0, "nontrivial": set(), "deferred_checks": 0}
     samples = []
     n_worlds = 8 if ctx.quick() else 300
     cases = []
@@ -184,6 +257,7 @@ def run(ctx):
         case = L.gen_world_case(ctx.rng, n_types=22 if ctx.quick() else 30)
         cases.append(case)
         check_case(ctx, case, stats, samples)
+        check_deferred(ctx, stats)
         if len(ctx.violations) > 20:
             break
     return {"evaluations": stats["evaluations"] + stats["denot_checks"], "distinct_nontrivial": len(stats["nontrivial"]),
@@ -191,7 +265,7 @@ def run(ctx):
             "samples": samples, "worlds": stats["worlds"], "worlds_satisfying_theorem_hypotheses": stats["worlds_hyp"],
             "documented_meaning_checks": stats["denot_checks"], "generic_covariance_checks": stats["generic_checks"],
             "chained_triples": stats["triples"], "chained_triples_in_proved_domain": stats["triples_in_domain"],
-            "dispatch_level_applicability_checks": stats["dispatch_checks"],
+            "dispatch_level_applicability_checks": stats["dispatch_checks"], "deferred_class_checks": stats["deferred_checks"],
             "transitivity_failures_in_worlds_outside_hypotheses": stats["trans_fail_outside_hypotheses"],
             "traces_validated_against_impl": stats["evaluations"]}
 
